@@ -579,7 +579,10 @@ def residual_check(acc, cname, prob, method, part, spec, mask, u, rhs, factor, t
             return C_ROUND * EPS * scale, err_inf
         if kind == 'krylov':
             b = float(np.linalg.norm(mask.M @ mask.hat(rhs))) if mask is not None else float(np.linalg.norm(rf))
-            return C_KRY * spec['rtol'] * b + C_ROUND * EPS * scale * np.sqrt(n), err_2
+            # an iterative solver carries the rounding of its initial guess along (the recursively updated residual does not
+            # see it): eps * |guess| is part of the attainable accuracy
+            g = float(np.max(np.abs(flat(guess)))) if guess is not None else 0.0
+            return C_KRY * spec['rtol'] * b + C_ROUND * EPS * max(scale, g) * np.sqrt(n), err_2
         if kind == 'newton':
             return C_CONF * spec['atol'] + C_ROUND * EPS * scale, err_inf
         if kind == 'newton_rel':
